@@ -3,7 +3,9 @@ package main
 import (
 	"fmt"
 	"go/ast"
+	"go/parser"
 	"go/token"
+	"path/filepath"
 	"sort"
 	"strings"
 )
@@ -189,4 +191,64 @@ func piece_readRecord(ef, wf *ast.File) (string, error) {
 	return "/-- writer.go (*writerRecords).ReadRecord: every record starts with Key = Value = nil (the reused Record is\n" +
 		"replaced by a fresh literal, or both fields are explicitly set to nil) -/\n" +
 		"def readRecordResets : Bool := " + v + "\n\n", nil
+}
+
+// piece_roundTripDeadline reads transport.go (*conn).roundTrip: which deadline setters are applied to the connection
+// when the request context carries a deadline.  The request is cut off at the socket on the WRITE side as well exactly
+// when SetDeadline (both directions) or SetWriteDeadline is among them.
+func piece_roundTripDeadline(repo string) (string, error) {
+	fset := token.NewFileSet()
+	tf, err := parser.ParseFile(fset, filepath.Join(repo, "transport.go"), nil, 0)
+	if err != nil {
+		return "", err
+	}
+	fd := findFunc(tf, "conn", "roundTrip")
+	if fd == nil || fd.Body == nil {
+		return "", fmt.Errorf("transport.go: (*conn).roundTrip not found")
+	}
+	setters := map[string]bool{}
+	found := false
+	ast.Inspect(fd.Body, func(n ast.Node) bool {
+		is, ok := n.(*ast.IfStmt)
+		if !ok || is.Init == nil {
+			return true
+		}
+		// if deadline, ok := ctx.Deadline(); ok { … }
+		usesDeadline := false
+		ast.Inspect(is.Init, func(m ast.Node) bool {
+			if c, ok := m.(*ast.CallExpr); ok {
+				if s, ok := c.Fun.(*ast.SelectorExpr); ok && s.Sel.Name == "Deadline" {
+					usesDeadline = true
+				}
+			}
+			return true
+		})
+		if !usesDeadline {
+			return true
+		}
+		found = true
+		for _, st := range is.Body.List {
+			es, ok := st.(*ast.ExprStmt) // the immediate calls, not the deferred resets
+			if !ok {
+				continue
+			}
+			if c, ok := es.X.(*ast.CallExpr); ok {
+				if s, ok := c.Fun.(*ast.SelectorExpr); ok && strings.HasPrefix(s.Sel.Name, "Set") && strings.HasSuffix(s.Sel.Name, "Deadline") {
+					setters[s.Sel.Name] = true
+				}
+			}
+		}
+		return true
+	})
+	if !found {
+		return "", fmt.Errorf("transport.go: (*conn).roundTrip: no `if deadline, ok := ctx.Deadline(); ok {…}` found")
+	}
+	var names []string
+	for n := range setters {
+		names = append(names, fmt.Sprintf("%q", n))
+	}
+	sort.Strings(names)
+	return "/-- transport.go (*conn).roundTrip: the deadline setters applied to the connection for a request whose context has a\n" +
+		"deadline (the Writer's WriteTimeout) -/\n" +
+		"def roundTripDeadlineSetters : List String := [" + strings.Join(names, ", ") + "]\n\n", nil
 }
